@@ -385,6 +385,7 @@ def finish(run, lean_ok, lean_info, divs, scripts_by_hdr, level='proof', extra_a
             'monitor_checks': cov['monitor_checks'], 'families': cov['families'],
             'correspondence_divergences': len(divs),
             'samples': cov['samples'][:6],
+            'extra': {k: v for k, v in cov.items() if k not in ('programs', 'evaluations', 'monitor_checks', 'families', 'samples', 'traces_validated_against_impl')},
         },
         'assumptions': ['little-endian host', 'chip behaves as Sx/Chip.lean states (DESIGN.md section 4)'] + list(extra_assumptions),
         'wall_s': round(time.time() - T0, 2),
